@@ -5,6 +5,7 @@ use std::collections::VecDeque;
 
 use crate::exec::{Source, World};
 use crate::op::*;
+use crate::shadow::Shadow;
 
 pub struct Rng(pub u64);
 impl Rng {
@@ -141,10 +142,15 @@ impl Gen {
             Profile::Pacing | Profile::Protocol | Profile::Metrics => self.rng.below(6),
             _ => self.rng.below(4),
         };
-        let ms = self.rng.below(7);
+        let mut ms = self.rng.below(7);
+        // occasionally a wake-up threshold far above what a short sequence allocates
+        let big = matches!(self.profile, Profile::Pacing | Profile::Protocol) && self.rng.chance(1, 7);
+        if big {
+            ms = [64, 256][self.rng.below(2)];
+        }
         match fam {
             // unit: every micro-step pays one unit; adjust_debt(k) buys about k steps
-            0 | 1 => PacingSpec { sleep: dy(0, 0), min_sleep: ms.min(2), mark: dy(1, 0), trace: dy(1, 0), keep: dy(1, 0), drop: dy(1, 0), free: dy(1, 0) },
+            0 | 1 => PacingSpec { sleep: dy(0, 0), min_sleep: if big { ms } else { ms.min(2) }, mark: dy(1, 0), trace: dy(1, 0), keep: dy(1, 0), drop: dy(1, 0), free: dy(1, 0) },
             // stop-the-world
             2 => PacingSpec { sleep: dy(1, 0), min_sleep: ms, mark: dy(0, 0), trace: dy(0, 0), keep: dy(0, 0), drop: dy(0, 0), free: dy(0, 0) },
             // dyadic rho < 1
@@ -161,6 +167,177 @@ impl Gen {
 
     fn push(&mut self, ai: usize, op: Op) {
         self.queue.push_back((ai, op));
+    }
+
+    /// profiles that allocate the lock-valued kinds and use the crate's own setters
+    fn lock_kinds(&self) -> bool {
+        matches!(self.profile, Profile::Core | Profile::Barrier | Profile::Weak | Profile::Fault)
+    }
+
+    /// object `i` can take a store now: it has slots, is undestructed, and — a `OnceCell` — is empty
+    fn can_adopt(sh: &Shadow, i: u32) -> bool {
+        let o = &sh.objs[i as usize];
+        !o.leaf && o.dropped == 0 && (o.kind != Kind::OnceCell || o.slots[0].is_none())
+    }
+
+    /// a barrier-issuing route into an object of this kind: mostly the kind's own safe setters
+    fn sanctioned_path(&mut self, kind: Kind, v: &SSlot) -> Path {
+        let own: &[Path] = match kind {
+            Kind::RefNode => &[Path::BorrowMut, Path::BorrowMut, Path::TryBorrowMut, Path::Unlock, Path::Write],
+            Kind::LockCell => &[Path::LockSet, Path::LockSet, Path::Unlock, Path::Write],
+            Kind::OnceCell => &[Path::OnceSet, Path::OnceSet, Path::GetOrInit],
+            _ => &[Path::Write],
+        };
+        let _ = v;
+        own[self.rng.below(own.len())]
+    }
+
+    /// Push the ops that store `v` into slot `i` of `p` by route `route`: 0 = a sanctioned setter of
+    /// the kind, 1 = store-then-barrier, 2 = the explicit barrier `b` followed by a barrier-less store.
+    fn emit_store(&mut self, ai: usize, kind: Kind, p: u32, i: usize, v: SSlot, route: u8, b: Option<Barrier>) {
+        match route {
+            2 => {
+                if let Some(b) = b {
+                    self.push(ai, Op::Barrier(b));
+                }
+                self.push(ai, Op::Store { path: Path::Raw, p, i, v });
+            }
+            1 if kind.paths().contains(&Path::Stb) => self.push(ai, Op::Store { path: Path::Stb, p, i, v }),
+            _ => {
+                let path = self.sanctioned_path(kind, &v);
+                self.push(ai, Op::Store { path, p, i, v });
+            }
+        }
+    }
+
+    /// Scenario (mark phase): an already traced (black) object whose whole value is a lock adopts a
+    /// not yet marked — mostly fresh — child through one of the crate's own setters: the cell where
+    /// only the setter's barrier keeps the child alive.
+    fn scenario_lock_setter(&mut self, w: &World, ai: usize) -> bool {
+        let sh = &w.arenas[ai].shadow;
+        let cols = &w.arenas[ai].colors;
+        let col = |i: u32| cols.get(&i).map(|c| c.0);
+        let reach = sh.reachable();
+        let mut holders: Vec<u32> = sh
+            .accessible()
+            .into_iter()
+            .filter(|i| matches!(sh.objs[*i as usize].kind, Kind::RefNode | Kind::LockCell | Kind::OnceCell) && sh.objs[*i as usize].dropped == 0)
+            .filter(|i| col(*i) == Some(b'B'))
+            .collect();
+        holders.sort();
+        // prefer holders the root reaches (the adoption then outlives the callback) and cells that
+        // can still be filled
+        let mut weighted: Vec<u32> = vec![];
+        for h in &holders {
+            let n = if Self::can_adopt(sh, *h) { 3 } else { 1 } * if reach.contains(h) { 2 } else { 1 };
+            for _ in 0..n {
+                weighted.push(*h);
+            }
+        }
+        let Some(p) = self.rng.pick(&weighted).copied() else { return false };
+        let kind = sh.objs[p as usize].kind;
+        if !sh.holds(SP::S(p)) {
+            match sh.path_to(p) {
+                Some(path) => path.into_iter().for_each(|op| self.push(ai, op)),
+                None => return false,
+            }
+        }
+        let i = self.rng.below(kind.nslots());
+        let fresh = sh.objs.len() as u32;
+        let unmarked: Vec<SP> = sh.temps.iter().copied().filter(|t| matches!(col(t.id()), Some(b'W') | Some(b'w')) && sh.objs[t.id() as usize].dropped == 0).collect();
+        let occupied = kind == Kind::OnceCell && !Self::can_adopt(sh, p);
+        if kind == Kind::OnceCell && !occupied && self.rng.chance(1, 3) {
+            // the closure of get_or_init allocates the child
+            self.push(ai, Op::Store { path: Path::GetOrInit, p, i, v: Some(SP::S(fresh)) });
+            return true;
+        }
+        let v = match self.rng.pick(&unmarked).copied() {
+            Some(t) if self.rng.chance(1, 3) && (kind != Kind::OnceCell || matches!(t, SP::S(_))) => t,
+            _ => {
+                let ck = [Kind::Node, Kind::Node, Kind::RefNode, Kind::LockCell, Kind::Leaf][self.rng.below(5)];
+                self.push(ai, Op::Alloc { kind: ck, slots: vec![None; ck.alloc_args()] });
+                if kind != Kind::OnceCell && self.rng.chance(1, 4) {
+                    self.push(ai, Op::Downgrade(fresh));
+                    // the weak pointer alone is adopted: the target must stay queryable
+                    SP::W(fresh)
+                } else {
+                    SP::S(fresh)
+                }
+            }
+        };
+        let route = if kind != Kind::OnceCell && self.rng.chance(1, 8) { 1 } else { 0 };
+        self.emit_store(ai, kind, p, i, Some(v), route, None);
+        true
+    }
+
+    /// Script: hang a fresh lock-valued object from the root, mark the arena completely (the holder
+    /// is black now), let it adopt a fresh — white — child through one of its own setters, run two
+    /// full cycles and read the child back through the holder.  The child is held by nothing else
+    /// once the callback has returned: only the setter's barrier keeps it.
+    fn lock_script(&mut self, w: &World, ai: usize) {
+        let n = w.arenas[ai].shadow.objs.len() as u32;
+        let hk = [Kind::RefNode, Kind::LockCell, Kind::OnceCell, Kind::OnceCell][self.rng.below(4)];
+        let i = self.rng.below(hk.nslots());
+        let ri = self.rng.below(4);
+        let via_node = self.rng.chance(1, 3);
+        self.push(ai, Op::Enter(Cb::MutateRoot));
+        self.push(ai, Op::Alloc { kind: hk, slots: vec![None; hk.alloc_args()] });
+        // c: the id the child will get
+        let c = if via_node {
+            self.push(ai, Op::Alloc { kind: Kind::Node, slots: vec![None, Some(SP::S(n)), None] });
+            self.push(ai, Op::RootStore { i: ri, v: Some(SP::S(n + 1)) });
+            n + 2
+        } else {
+            self.push(ai, Op::RootStore { i: ri, v: Some(SP::S(n)) });
+            n + 1
+        };
+        self.push(ai, Op::Leave { panic: false });
+        self.push(ai, Op::Collect { method: Method::FinishMarking, cont: Cont::Drop, fault: None });
+        self.push(ai, Op::Enter(Cb::Mutate));
+        self.push(ai, Op::ReadRoot(ri));
+        if via_node {
+            self.push(ai, Op::Read(n + 1, 1));
+        }
+        let ck = [Kind::Node, Kind::Node, Kind::RefNode, Kind::LockCell, Kind::Leaf][self.rng.below(5)];
+        let mut weak_only = false;
+        if hk == Kind::OnceCell && self.rng.chance(1, 2) {
+            // the closure of get_or_init allocates the child (a Node)
+            self.push(ai, Op::Store { path: Path::GetOrInit, p: n, i, v: Some(SP::S(c)) });
+        } else {
+            self.push(ai, Op::Alloc { kind: ck, slots: vec![None; ck.alloc_args()] });
+            weak_only = hk != Kind::OnceCell && self.rng.chance(1, 4);
+            if weak_only {
+                self.push(ai, Op::Downgrade(c));
+            }
+            let v = Some(if weak_only { SP::W(c) } else { SP::S(c) });
+            let path = self.sanctioned_path(hk, &v);
+            self.push(ai, Op::Store { path, p: n, i, v });
+        }
+        self.push(ai, Op::Leave { panic: false });
+        self.push(ai, Op::Collect { method: Method::FinishCycle, cont: Cont::Drop, fault: None });
+        self.push(ai, Op::Collect { method: Method::FinishCycle, cont: Cont::Drop, fault: None });
+        self.push(ai, Op::Enter(Cb::Mutate));
+        self.push(ai, Op::ReadRoot(ri));
+        if via_node {
+            self.push(ai, Op::Read(n + 1, 1));
+        }
+        self.push(ai, Op::Read(n, i));
+        if weak_only {
+            self.push(ai, Op::IsDropped(c));
+            self.push(ai, Op::Upgrade(c));
+        }
+        self.push(ai, Op::Leave { panic: false });
+        self.cb_stack.clear();
+    }
+
+    /// an op that does nothing of interest: `readroot`, or — without a root — an allocation
+    fn idle_op(&mut self, w: &World, ai: usize) {
+        if w.arenas[ai].shadow.cb.is_some_and(|k| k.has_root()) {
+            let i = self.rng.below(4);
+            self.push(ai, Op::ReadRoot(i));
+        } else {
+            self.push(ai, Op::Alloc { kind: Kind::Node, slots: vec![None, None, None] });
+        }
     }
 
     /// choose a value for a slot from what the callback holds
@@ -206,9 +383,10 @@ impl Gen {
         cands.retain(|(_, _, t)| sh.objs[*t as usize].dropped == 0 && matches!(cols.get(t).map(|c| c.0), Some(b'w') | Some(b'W')));
         let Some((h, k, t)) = self.rng.pick(&cands).copied() else { return false };
         // a traced holder to adopt it
-        let mut parents: Vec<u32> = acc.iter().copied().filter(|i| !sh.objs[*i as usize].leaf && sh.objs[*i as usize].dropped == 0 && cols.get(i).map(|c| c.0) == Some(b'B')).collect();
+        let mut parents: Vec<u32> = acc.iter().copied().filter(|i| Self::can_adopt(sh, *i) && cols.get(i).map(|c| c.0) == Some(b'B')).collect();
         parents.sort();
         let Some(p) = self.rng.pick(&parents).copied() else { return false };
+        let pk = sh.objs[p as usize].kind;
         match h {
             None => self.push(ai, Op::ReadRoot(k)),
             Some(h) => {
@@ -228,10 +406,10 @@ impl Gen {
                 None => return false,
             }
         }
-        let i = self.rng.below(3);
+        let i = self.rng.below(pk.nslots());
         match self.rng.below(7) {
-            0 => self.push(ai, Op::Store { path: Path::Write, p, i, v: Some(SP::S(t)) }),
-            1 => self.push(ai, Op::Store { path: Path::Stb, p, i, v: Some(SP::S(t)) }),
+            0 => self.emit_store(ai, pk, p, i, Some(SP::S(t)), 0, None),
+            1 => self.emit_store(ai, pk, p, i, Some(SP::S(t)), 1, None),
             n => {
                 let b = match n {
                     2 => Barrier::Bb(p, None),
@@ -239,8 +417,7 @@ impl Gen {
                     5 => Barrier::Fb(None, t),
                     _ => Barrier::Fb(Some(p), t),
                 };
-                self.push(ai, Op::Barrier(b));
-                self.push(ai, Op::Store { path: Path::Raw, p, i, v: Some(SP::S(t)) });
+                self.emit_store(ai, pk, p, i, Some(SP::S(t)), 2, Some(b));
             }
         }
         true
@@ -260,8 +437,8 @@ impl Gen {
         ids.sort();
         for h in ids {
             let o = &sh.objs[h as usize];
-            // the old holder: not traced yet (white or queued)
-            if o.dropped == 0 && !o.leaf && matches!(cols.get(&h).map(|c| c.0), Some(b'W') | Some(b'G') | Some(b'w')) {
+            // the old holder: not traced yet (white or queued); its slot can be cleared afterwards
+            if o.dropped == 0 && !o.leaf && o.kind != Kind::OnceCell && matches!(cols.get(&h).map(|c| c.0), Some(b'W') | Some(b'G') | Some(b'w')) {
                 for (k, s) in o.slots.iter().enumerate() {
                     if let Some(SP::W(t)) = s {
                         // target not weakly marked yet; shells (destructed earlier) preferred
@@ -277,9 +454,11 @@ impl Gen {
             }
         }
         let Some((h, k, t)) = self.rng.pick(&cands).copied() else { return false };
-        let mut parents: Vec<u32> = acc.iter().copied().filter(|i| *i != h && !sh.objs[*i as usize].leaf && sh.objs[*i as usize].dropped == 0 && cols.get(i).map(|c| c.0) == Some(b'B')).collect();
+        let mut parents: Vec<u32> = acc.iter().copied().filter(|i| *i != h && Self::can_adopt(sh, *i) && cols.get(i).map(|c| c.0) == Some(b'B')).collect();
         parents.sort();
         let Some(p) = self.rng.pick(&parents).copied() else { return false };
+        let pk = sh.objs[p as usize].kind;
+        let hk = sh.objs[h as usize].kind;
         if !sh.holds(SP::S(h)) {
             match sh.path_to(h) {
                 Some(path) => path.into_iter().for_each(|op| self.push(ai, op)),
@@ -293,22 +472,21 @@ impl Gen {
                 None => return false,
             }
         }
-        let i = self.rng.below(3);
+        let i = self.rng.below(pk.nslots());
         match self.rng.below(7) {
-            0 => self.push(ai, Op::Store { path: Path::Write, p, i, v: Some(SP::W(t)) }),
-            1 => self.push(ai, Op::Store { path: Path::Stb, p, i, v: Some(SP::W(t)) }),
+            0 => self.emit_store(ai, pk, p, i, Some(SP::W(t)), 0, None),
+            1 => self.emit_store(ai, pk, p, i, Some(SP::W(t)), 1, None),
             n => {
                 let b = match n {
                     2 | 3 | 4 => Barrier::Bbw(p, t),
                     5 => Barrier::Fbw(None, t),
                     _ => Barrier::Fbw(Some(p), t),
                 };
-                self.push(ai, Op::Barrier(b));
-                self.push(ai, Op::Store { path: Path::Raw, p, i, v: Some(SP::W(t)) });
+                self.emit_store(ai, pk, p, i, Some(SP::W(t)), 2, Some(b));
             }
         }
         // forget it in the old holder
-        self.push(ai, Op::Store { path: Path::Write, p: h, i: k, v: None });
+        self.emit_store(ai, hk, h, k, None, 0, None);
         true
     }
 
@@ -328,7 +506,7 @@ impl Gen {
         }
         let id = sh.objs.len() as u32;
         let leaf = self.rng.chance(1, 3);
-        self.push(ai, Op::Alloc { leaf, slots: if leaf { vec![] } else { vec![None, None, None] } });
+        self.push(ai, Op::Alloc { kind: Kind::of_leaf(leaf), slots: if leaf { vec![] } else { vec![None, None, None] } });
         let b = match self.rng.below(4) {
             0 => Barrier::Fb(Some(p), id),
             1 => Barrier::Fb(None, id),
@@ -344,6 +522,9 @@ impl Gen {
         if w.arenas[ai].phase == b'S' && self.rng.chance(1, 10) && self.scenario_barrier_in_sweep(w, ai) {
             return;
         }
+        if w.arenas[ai].phase == b'M' && self.lock_kinds() && self.rng.chance(1, 4) && self.scenario_lock_setter(w, ai) {
+            return;
+        }
         if w.arenas[ai].phase == b'M' && self.rng.chance(1, 3) && self.scenario_adopt_weak(w, ai) {
             return;
         }
@@ -353,13 +534,15 @@ impl Gen {
         if self.rng.chance(1, 14) {
             // plant an object that is held weakly only
             let sh = &w.arenas[ai].shadow;
-            let holders: Vec<u32> = sh.temps.iter().filter_map(|p| if let SP::S(i) = p { Some(*i) } else { None }).filter(|i| !sh.objs[*i as usize].leaf).collect();
+            let holders: Vec<u32> = sh.temps.iter().filter_map(|p| if let SP::S(i) = p { Some(*i) } else { None }).filter(|i| Self::can_adopt(sh, *i) && sh.objs[*i as usize].kind != Kind::OnceCell).collect();
             if let Some(h) = self.rng.pick(&holders).copied() {
                 let id = sh.objs.len() as u32;
-                let k = self.rng.below(3);
-                self.push(ai, Op::Alloc { leaf: false, slots: vec![None, None, None] });
+                let hk = sh.objs[h as usize].kind;
+                let k = self.rng.below(hk.nslots());
+                let tk = if self.lock_kinds() { [Kind::Node, Kind::Node, Kind::RefNode, Kind::LockCell, Kind::OnceCell][self.rng.below(5)] } else { Kind::Node };
+                self.push(ai, Op::Alloc { kind: tk, slots: vec![None; tk.alloc_args()] });
                 self.push(ai, Op::Downgrade(id));
-                self.push(ai, Op::Store { path: Path::Write, p: h, i: k, v: Some(SP::W(id)) });
+                self.emit_store(ai, hk, h, k, Some(SP::W(id)), 0, None);
                 return;
             }
         }
@@ -399,22 +582,44 @@ impl Gen {
             }
             // also read weak slots of held nodes
             if let Some(p) = self.rng.pick(&nodes).copied() {
-                let i = self.rng.below(3);
+                let i = self.rng.below(sh.objs[p as usize].kind.nslots());
                 self.push(ai, Op::Read(p, i));
                 return;
             }
-            let i = self.rng.below(4);
-            self.push(ai, Op::ReadRoot(i));
-            return;
+            return self.idle_op(w, ai);
         }
         r -= w_nav;
         if r < w_alloc {
             let leaf_odds = if self.profile == Profile::Metrics { 4 } else { 1 };
             if self.rng.chance(leaf_odds, 10) {
-                self.push(ai, Op::Alloc { leaf: true, slots: vec![] });
+                self.push(ai, Op::Alloc { kind: Kind::Leaf, slots: vec![] });
             } else {
-                let slots = (0..3).map(|_| if self.rng.chance(1, 2) { None } else { self.slot_value(w, ai, weak_bias) }).collect();
-                self.push(ai, Op::Alloc { leaf: false, slots });
+                // the lock-valued kinds, in the profiles that use them (an empty OnceCell keeps trace
+                // faults from being injected, so the fault profile allocates few and fills most at once)
+                let kind = if self.lock_kinds() {
+                    let once = if self.profile == Profile::Fault { 3 } else { 10 };
+                    match self.rng.below(100) {
+                        n if n < 55 => Kind::Node,
+                        n if n < 75 => Kind::RefNode,
+                        n if n < 100 - once => Kind::LockCell,
+                        _ => Kind::OnceCell,
+                    }
+                } else {
+                    Kind::Node
+                };
+                let slots: Vec<SSlot> = (0..kind.alloc_args()).map(|_| if self.rng.chance(1, 2) { None } else { self.slot_value(w, ai, weak_bias) }).collect();
+                self.push(ai, Op::Alloc { kind, slots });
+                if kind == Kind::OnceCell && self.rng.chance(if self.profile == Profile::Fault { 3 } else { 1 }, 4) {
+                    let id = w.arenas[ai].shadow.objs.len() as u32;
+                    let held: Vec<SP> = w.arenas[ai].shadow.temps.iter().copied().filter(|t| matches!(t, SP::S(_))).collect();
+                    match self.rng.pick(&held).copied() {
+                        Some(t) if self.rng.chance(2, 3) => {
+                            let path = if self.rng.chance(2, 3) { Path::OnceSet } else { Path::GetOrInit };
+                            self.push(ai, Op::Store { path, p: id, i: 0, v: Some(t) });
+                        }
+                        _ => self.push(ai, Op::Store { path: Path::GetOrInit, p: id, i: 0, v: Some(SP::S(id + 1)) }),
+                    }
+                }
             }
             return;
         }
@@ -427,13 +632,32 @@ impl Gen {
             let black_nodes: Vec<u32> = nodes.iter().copied().filter(|i| cols.get(i).map(|c| c.0) == Some(b'B')).collect();
             let pick_parent = if marking && !black_nodes.is_empty() && self.rng.chance(2, 3) { self.rng.pick(&black_nodes).copied() } else { self.rng.pick(&nodes).copied() };
             if let Some(p) = pick_parent {
-                let i = self.rng.below(3);
+                let pk = sh.objs[p as usize].kind;
+                let i = self.rng.below(pk.nslots());
                 let mut v = self.slot_value(w, ai, weak_bias);
                 if marking && self.rng.chance(1, 2) {
                     let unmarked: Vec<SP> = sh.temps.iter().copied().filter(|t| matches!(cols.get(&t.id()).map(|c| c.0), Some(b'W') | Some(b'w') | None)).collect();
                     if let Some(t) = self.rng.pick(&unmarked).copied() {
                         v = Some(t);
                     }
+                }
+                if pk == Kind::OnceCell {
+                    // a OnceLock takes a value, once; on an occupied cell the setters are reads
+                    if v.is_none() {
+                        v = sh.temps.iter().copied().find(|t| matches!(t, SP::S(_)));
+                    }
+                    let occupied = !Self::can_adopt(sh, p);
+                    let fresh = Some(SP::S(sh.objs.len() as u32));
+                    match self.rng.below(8) {
+                        0 | 1 | 2 if v.is_some() => self.push(ai, Op::Store { path: Path::OnceSet, p, i, v }),
+                        3 | 4 if v.is_some() => self.push(ai, Op::Store { path: Path::GetOrInit, p, i, v }),
+                        5 if v.is_some() && !occupied => {
+                            self.push(ai, Op::Barrier(Barrier::Bb(p, None)));
+                            self.push(ai, Op::Store { path: Path::Raw, p, i, v });
+                        }
+                        _ => self.push(ai, Op::Store { path: Path::GetOrInit, p, i, v: fresh }),
+                    }
+                    return;
                 }
                 let explicit = match self.profile {
                     Profile::Barrier => 6,
@@ -471,11 +695,12 @@ impl Gen {
                 } else if k == 9 {
                     self.push(ai, Op::Store { path: Path::Stb, p, i, v });
                 } else {
-                    self.push(ai, Op::Store { path: Path::Write, p, i, v });
+                    let path = self.sanctioned_path(pk, &v);
+                    self.push(ai, Op::Store { path, p, i, v });
                 }
                 return;
             }
-            self.push(ai, Op::Alloc { leaf: false, slots: vec![None, None, None] });
+            self.push(ai, Op::Alloc { kind: Kind::Node, slots: vec![None, None, None] });
             return;
         }
         r -= w_store;
@@ -485,8 +710,7 @@ impl Gen {
                 let v = self.slot_value(w, ai, weak_bias);
                 self.push(ai, Op::RootStore { i, v });
             } else {
-                let i = self.rng.below(4);
-                self.push(ai, Op::ReadRoot(i));
+                self.idle_op(w, ai);
             }
             return;
         }
@@ -519,9 +743,7 @@ impl Gen {
                     }
                 }
             }
-            let i = self.rng.below(4);
-            self.push(ai, Op::ReadRoot(i));
-            return;
+            return self.idle_op(w, ai);
         }
         r -= w_weak;
         if r < w_barrier {
@@ -541,10 +763,7 @@ impl Gen {
             };
             match b {
                 Some(b) => self.push(ai, Op::Barrier(b)),
-                None => {
-                    let i = self.rng.below(4);
-                    self.push(ai, Op::ReadRoot(i))
-                }
+                None => self.idle_op(w, ai),
             }
             return;
         }
@@ -562,8 +781,7 @@ impl Gen {
                 }
             }
         } else {
-            let i = self.rng.below(4);
-            self.push(ai, Op::ReadRoot(i));
+            self.idle_op(w, ai);
         }
     }
 
@@ -591,11 +809,11 @@ impl Gen {
                 let mut prev_h: Option<u32> = None;
                 for _ in 0..pairs {
                     let (ta, tb, h) = (id, id + 1, id + 2);
-                    self.push(ai, Op::Alloc { leaf: false, slots: vec![prev_t.map(SP::S), None, None] });
-                    self.push(ai, Op::Alloc { leaf: false, slots: vec![Some(SP::S(ta)), None, None] });
+                    self.push(ai, Op::Alloc { kind: Kind::Node, slots: vec![prev_t.map(SP::S), None, None] });
+                    self.push(ai, Op::Alloc { kind: Kind::Node, slots: vec![Some(SP::S(ta)), None, None] });
                     self.push(ai, Op::Downgrade(ta));
                     self.push(ai, Op::Downgrade(tb));
-                    self.push(ai, Op::Alloc { leaf: false, slots: vec![prev_h.map(SP::S), Some(SP::W(ta)), Some(SP::W(tb))] });
+                    self.push(ai, Op::Alloc { kind: Kind::Node, slots: vec![prev_h.map(SP::S), Some(SP::W(ta)), Some(SP::W(tb))] });
                     prev_t = Some(tb);
                     prev_h = Some(h);
                     id += 3;
@@ -616,7 +834,7 @@ impl Gen {
             3 => {
                 // one garbage allocation, then a cycle_debt step: wakes in small debt, then runs on
                 self.push(ai, Op::Enter(Cb::Mutate));
-                self.push(ai, Op::Alloc { leaf: true, slots: vec![] });
+                self.push(ai, Op::Alloc { kind: Kind::Leaf, slots: vec![] });
                 self.push(ai, Op::Leave { panic: false });
                 self.cb_stack.clear();
                 self.push(ai, Op::Collect { method: Method::CycleDebt, cont: Cont::Drop, fault: None });
@@ -660,14 +878,14 @@ impl Gen {
                 self.soak_prev = None;
             }
         }
-        self.push(ai, Op::Alloc { leaf: false, slots: vec![None, None, None] });
+        self.push(ai, Op::Alloc { kind: Kind::Node, slots: vec![None, None, None] });
         self.push(ai, Op::Downgrade(x));
         let prev_slot = self.soak_prev.map(SP::S);
         let slots = if weak_first { vec![Some(SP::W(x)), Some(SP::S(x)), prev_slot] } else { vec![Some(SP::S(x)), Some(SP::W(x)), prev_slot] };
-        self.push(ai, Op::Alloc { leaf: false, slots });
+        self.push(ai, Op::Alloc { kind: Kind::Node, slots });
         if garbage {
             let leaf = self.rng.chance(1, 2);
-            self.push(ai, Op::Alloc { leaf, slots: if leaf { vec![] } else { vec![None, None, None] } });
+            self.push(ai, Op::Alloc { kind: Kind::of_leaf(leaf), slots: if leaf { vec![] } else { vec![None, None, None] } });
             extra = 1;
         }
         let _ = extra;
@@ -717,10 +935,12 @@ impl Gen {
             0 => {
                 // root.0 -> b -> a -(weak)-> t ; two full cycles: t is destructed, its shell stays
                 let leaf = self.rng.chance(1, 3);
+                // the holder that ends up black: a Node, or an object whose whole value is a RefLock
+                let bk = if self.lock_kinds() && self.rng.chance(1, 2) { Kind::RefNode } else { Kind::Node };
                 self.push(ai, Op::Enter(Cb::MutateRoot));
-                self.push(ai, Op::Alloc { leaf: false, slots: vec![None, None, None] });
-                self.push(ai, Op::Alloc { leaf: false, slots: vec![None, None, None] });
-                self.push(ai, Op::Alloc { leaf, slots: if leaf { vec![] } else { vec![None, None, None] } });
+                self.push(ai, Op::Alloc { kind: bk, slots: vec![None, None, None] });
+                self.push(ai, Op::Alloc { kind: Kind::Node, slots: vec![None, None, None] });
+                self.push(ai, Op::Alloc { kind: Kind::of_leaf(leaf), slots: if leaf { vec![] } else { vec![None, None, None] } });
                 self.push(ai, Op::Downgrade(t));
                 self.push(ai, Op::Store { path: Path::Write, p: a, i: 0, v: Some(SP::W(t)) });
                 self.push(ai, Op::Store { path: Path::Write, p: b, i: 0, v: Some(SP::S(a)) });
@@ -776,17 +996,17 @@ impl Gen {
                 self.push(ai, Op::ReadRoot(0));
                 self.push(ai, Op::Read(b, 0));
                 self.push(ai, Op::Read(a, 0));
+                let bk = w.arenas[ai].shadow.objs[b as usize].kind;
                 match self.rng.below(7) {
-                    0 => self.push(ai, Op::Store { path: Path::Write, p: b, i: 1, v: Some(SP::W(t)) }),
-                    1 => self.push(ai, Op::Store { path: Path::Stb, p: b, i: 1, v: Some(SP::W(t)) }),
+                    0 => self.emit_store(ai, bk, b, 1, Some(SP::W(t)), 0, None),
+                    1 => self.emit_store(ai, bk, b, 1, Some(SP::W(t)), 1, None),
                     n => {
                         let bar = match n {
                             2 | 3 | 4 => Barrier::Bbw(b, t),
                             5 => Barrier::Fbw(None, t),
                             _ => Barrier::Fbw(Some(b), t),
                         };
-                        self.push(ai, Op::Barrier(bar));
-                        self.push(ai, Op::Store { path: Path::Raw, p: b, i: 1, v: Some(SP::W(t)) });
+                        self.emit_store(ai, bk, b, 1, Some(SP::W(t)), 2, Some(bar));
                     }
                 }
                 self.push(ai, Op::Store { path: Path::Write, p: a, i: 0, v: None });
@@ -850,6 +1070,20 @@ impl Gen {
         if self.profile == Profile::Soak {
             return self.soak_round(w, ai);
         }
+        if self.lock_kinds() && self.emitted + 25 < self.max_ops && w.arenas[ai].phase != b'S' && self.rng.chance(1, 10) {
+            return self.lock_script(w, ai);
+        }
+        // arena::rootless_mutate: a throw-away arena (next free index) that lives for one callback
+        if matches!(self.profile, Profile::Core | Profile::Weak | Profile::Protocol | Profile::Fault | Profile::Multi)
+            && self.emitted + 12 < self.max_ops
+            && self.rng.chance(1, 60)
+        {
+            let ri = w.arenas.len();
+            self.push(ri, Op::New(0));
+            let n = 2 + self.rng.below(9);
+            self.cb_stack.push((ri, n));
+            return;
+        }
         let r = self.rng.below(100);
         let (p_mut, p_mroot, p_collect) = match self.profile {
             Profile::Protocol => (25, 10, 60),
@@ -893,6 +1127,12 @@ impl Gen {
                 3 if self.profile == Profile::Protocol || self.profile == Profile::Pacing => {
                     self.push(ai, Op::Adjust(dy(1000, 0)));
                 }
+                4 if self.rng.chance(1, 2) => {
+                    // a negative amount larger than the current debt (integer, hence dyadic)
+                    let debt = w.arenas[ai].metrics.as_ref().map(|m| m.allocation_debt()).unwrap_or(0.0);
+                    let k = debt.ceil().min(1e9) as i64 + 1 + self.rng.below(8) as i64;
+                    self.push(ai, Op::Adjust(dy(-k, 0)));
+                }
                 _ => {}
             }
             let method = *self.rng.pick(&Method::ALL).unwrap();
@@ -903,7 +1143,7 @@ impl Gen {
             } else {
                 Cont::Drop
             };
-            let fault = if self.profile == Profile::Fault && self.rng.chance(1, 3) { Some((self.rng.below(6), self.rng.below(5))) } else { None };
+            let fault = if self.profile == Profile::Fault && self.rng.chance(1, 3) { Some((if self.rng.chance(1, 2) { self.rng.below(4) } else { self.rng.below(13) }, self.rng.below(5))) } else { None };
             self.push(ai, Op::Collect { method, cont, fault });
             if cont != Cont::Finalize && (self.profile == Profile::Reclaim && method == Method::FinishCycle || self.rng.chance(1, 12)) {
                 self.push(ai, Op::Collect { method: Method::FinishCycle, cont: Cont::Drop, fault: None });
@@ -955,7 +1195,7 @@ impl Source for Gen {
                 return None;
             }
             if let Some((ai, left)) = self.cb_stack.last().copied() {
-                if w.arenas[ai].shadow.cb.is_none() {
+                if ai >= w.arenas.len() || w.arenas[ai].shadow.cb.is_none() {
                     // the callback was not entered (or already left)
                     self.cb_stack.pop();
                     continue;
@@ -1024,6 +1264,12 @@ impl Source for Replay {
                 Some(k)
             }
             _ => None,
+        }
+    }
+
+    fn begin_rootless(&mut self, _w: &World, ai: usize) {
+        if matches!(self.ops.front(), Some((a, Op::Enter(Cb::Rootless))) if *a == ai) {
+            self.ops.pop_front();
         }
     }
 
